@@ -121,6 +121,8 @@ pub mod internals {
     pub use crate::key::KeyCodec;
     #[cfg(arroy_verif)]
     pub use crate::parallel::ConcurrentNodeIds;
+    #[cfg(arroy_verif)]
+    pub use crate::parallel::{TmpNodes, TmpNodesReader};
     pub use crate::node::{Leaf, NodeCodec};
     pub use crate::unaligned_vector::{SizeMismatch, UnalignedVector, UnalignedVectorCodec};
 
